@@ -22,16 +22,19 @@ def retry_specs(max_attempts=4):
     return st.one_of(
         st.just({"kind": "none"}),
         st.builds(
-            lambda m, d, nr: {"kind": "table", "max": m, "delays": d, "nonretry": nr},
+            lambda m, d, nr, di: {"kind": "table", "max": m, "delays": d, "nonretry": nr, **({"direct": True} if di else {})},
             st.integers(1, max_attempts),
             st.lists(st.integers(0, 6), min_size=1, max_size=3),
             st.sampled_from([[], [], ["OtherUserError"]]),
+            st.sampled_from([False, False, True]),
         ),
     )
 
 
-def step_behaviours(values, allow_fail=True, deterministic=False):
+def step_behaviours(values, allow_fail=True, deterministic=False, fresh=False):
     opts = [st.builds(lambda v: {"kind": "ret", "v": v}, values)]
+    if fresh:
+        opts += [st.just({"kind": "ticket"})] * 2
     if allow_fail and deterministic:
         opts += [
             st.builds(lambda k, e, v: {"kind": "fail_by_attempt", "k": k, "err": e, "v": v}, st.integers(1, 3), st.sampled_from(ERRS), values),
@@ -45,11 +48,11 @@ def step_behaviours(values, allow_fail=True, deterministic=False):
     return st.one_of(*opts)
 
 
-def steps(values=None, *, allow_fail=True, sems=("least", "most"), allow_json_serdes=False, logs=False, deterministic=False):
+def steps(values=None, *, allow_fail=True, sems=("least", "most"), allow_json_serdes=False, logs=False, deterministic=False, fresh=False):
     values = tagged_values() if values is None else values
     return st.builds(
         lambda beh, sem, retry, y, sl, mu: {"op": "step", "beh": beh, "sem": sem, "retry": retry, "yields": y, **({"sleep": sl} if sl else {}), **({"mutate": True} if mu else {})},
-        step_behaviours(values, allow_fail, deterministic),
+        step_behaviours(values, allow_fail, deterministic, fresh),
         st.sampled_from(list(sems)),
         retry_specs() if allow_fail else st.just({"kind": "none"}),
         st.sampled_from([0, 0, 1, 2]),
@@ -87,11 +90,12 @@ def programs(  # noqa: PLR0913
     deterministic=False,
     wfcond_fail=False,
     wait_all=False,
+    fresh=False,
 ):
     vals = tagged_values()
     leafs = []
     if "step" in features:
-        leafs += [steps(vals, allow_fail=allow_fail, sems=sems, deterministic=deterministic)] * 3
+        leafs += [steps(vals, allow_fail=allow_fail, sems=sems, deterministic=deterministic, fresh=fresh)] * 3
     if "wait" in features:
         leafs.append(waits())
     if "invoke" in features:
@@ -179,7 +183,7 @@ def backend_cfgs():
         lambda resp, page, first, sp, prune, lag, lat, ep: {"response": resp, "page_size": page, "first_page": first, "state_page": sp, "prune_children": prune, "timer_lag": lag, "api_latency": lat, "empty_page_at": ep},
         st.sampled_from(["delta", "delta", "full"]),
         st.sampled_from([None, None, 1, 2, 5]),
-        st.sampled_from([None, None, 0, 1, 3]),
+        st.sampled_from([None, None, 0, 1, 3, -1]),
         st.sampled_from([1, 2, 3]),
         st.booleans(),
         st.sampled_from([0.0, 0.0, 0.5, 2.0]),
